@@ -628,7 +628,7 @@ def expected_equality_weld(R, is_sparse=False):
     for r, row in enumerate(rows):
       k = 0 if r < 3 else 1
       row["invweight_guard"] = And(*[eq(_mrd(R, "body_invweight0", R.rd("body_weldid", b), k=k), _mrd(R, "body_invweight0", b, k=k)) for b in (b1, b2)])
-  return {"act": ne(R.rd("eq_active_in", w, eqid), False), "counter": "ne_out", "rows": rows, "J": J, "pre": pre, "cases": cases, "cases_first": True}
+  return {"act": ne(R.rd("eq_active_in", w, eqid), False), "counter": "ne_out", "rows": rows, "J": J, "pre": pre, "cases": cases, "cases_first": True, "cases_first_all": True}
 
 
 def quat2vel_axis_angle(q):
